@@ -164,7 +164,7 @@ contract("C04", "ensemble_roundtrip", native=False, replay_with="limits_native")
 # parity breaks C04's clause although no recorded point leaves the box)
 from contracts.c07_hamiltonian import reflect_momenta as _rm, bounded_leapfrog_structure as _bls
 contract("C04", "reflect_momenta", native=False, replay_with="limits_native")(_rm)
-contract("C04", "bounded_leapfrog_structure", native=False, replay_with="limits_native")(_bls)
+contract("C04", "bounded_leapfrog_structure", native=False, replay_with="hmc_fold_parity_native", tags=("structural",))(_bls)
 
 # far overshoots of the real trajectory (fold + momentum parity against a mirror-by-mirror reference): bounded companion written
 # with the C07 contracts, run under this property as well
